@@ -375,12 +375,61 @@ class Model(object):
         self.name = name
         self.data = data
         self.structs = data["structs"]
+        self._demangle_internal(data)
         self.globals = data["globals"]
         self.functions = {}
         for n, d in data["functions"].items():
             self.functions[n] = Function(self, n, d)
         self._infer_noreturn()
         self._callers = None
+
+    @staticmethod
+    def _demangle_internal(data):
+        """C++ units: yaep.cpp compiles yaep.c as C++, so its (static) functions and variables carry
+        mangled names.  They are renamed to their source names when that is unambiguous, so that the
+        rule tables -- keyed by source identifiers -- apply to both libraries."""
+        fmap, gmap = {}, {}
+        cnt = {}
+        for n, d in data["functions"].items():
+            sn = d.get("srcname")
+            if sn and n.startswith("_Z") and not n.startswith("_ZN") and not d.get("decl"):
+                cnt[sn] = cnt.get(sn, 0) + 1
+        for n, d in data["functions"].items():
+            sn = d.get("srcname")
+            if sn and n.startswith("_Z") and not n.startswith("_ZN") and not d.get("decl") and cnt.get(sn) == 1 and sn not in data["functions"]:
+                fmap[n] = sn
+        gc = {}
+        for n, d in data["globals"].items():
+            sn = d.get("srcname")
+            if sn and n.startswith("_Z") and not n.startswith("_ZN"):
+                gc[sn] = gc.get(sn, 0) + 1
+        for n, d in data["globals"].items():
+            sn = d.get("srcname")
+            if sn and n.startswith("_Z") and not n.startswith("_ZN") and gc.get(sn) == 1 and sn not in data["globals"]:
+                gmap[n] = sn
+        if not fmap and not gmap:
+            return
+
+        def fix(o):
+            if isinstance(o, dict):
+                k = o.get("k")
+                if k == "f" and o.get("v") in fmap:
+                    o["v"] = fmap[o["v"]]
+                elif k == "g" and o.get("v") in gmap:
+                    o["v"] = gmap[o["v"]]
+                if "callee" in o and o["callee"] in fmap:
+                    o["callee"] = fmap[o["callee"]]
+                for v in o.values():
+                    if isinstance(v, (dict, list)):
+                        fix(v)
+            elif isinstance(o, list):
+                for v in o:
+                    if isinstance(v, (dict, list)):
+                        fix(v)
+        fix(data["functions"])
+        fix(data["globals"])
+        data["functions"] = dict((fmap.get(n, n), d) for n, d in data["functions"].items())
+        data["globals"] = dict((gmap.get(n, n), d) for n, d in data["globals"].items())
 
     def fn(self, name):
         return self.functions.get(name)
